@@ -10,6 +10,7 @@ values per key, empty values), all `Ctx` (Host, peer address, TLS) and all model
 import Olla.Model.Headers
 import Olla.Spec.C15
 import Olla.Spec.State
+import Olla.Gen.Security
 
 namespace Olla.Props.C15
 open Olla.Model.Headers Olla.Gen.Headers
@@ -738,5 +739,10 @@ object. `Olla.Gen.State` is re-read from the source on every run: the package-le
 reachable from each function inside its package that the package changes after initialisation. -/
 theorem C15_tie_no_process_wide_state :
     Olla.Spec.State.reachesOnly "core.CopyHeaders" [] = true := by decide
+
+/-- The glue in front of the handlers: the middleware chain mounted on the proxy routes (rate limit, size limit,
+    request and access logging) hands the request on as it came — every line of every client header, the path
+    and the raw query (a probe through the real chain, regenerated on every run: a tie, not a theorem). -/
+theorem C15_tie_middleware_leaves_request_alone : Olla.Gen.Security.chainRequestChanges = [] := by decide
 
 end Olla.Props.C15
